@@ -8,7 +8,7 @@ was sized with it."""
 import re
 
 from ..facts import extract, units_matching, Program, AnalysisBroken, sx_find, sx_str
-from ..match import ev_write, is_call, call_args, call_obj, field_of, var_of
+from ..match import ev_write, is_call, call_args, call_obj, field_of, var_of, known_edges, only_via
 from .c18 import _is_lit
 
 UNITS = r"SimTKmath/LinearAlgebra/src/LapackInterface\.cpp$"
@@ -113,6 +113,9 @@ def run(chk, tier, overlays=()):
     chk.floor("REACHDEF", 40)
     chk.floor("OPTCHAR", 16)
     chk.floor("DEFTOL", 3)
+    chk.floor("OVERRIDE", 20)
+    chk.floor("PRESERVE", 3)
+    chk.floor("NEEDFLAG", 5)
     chk.assumptions += ["everything in Factor*.cpp / Eigen.cpp (rank logic, residuals) is numerical and not decided"]
 
 
@@ -173,6 +176,7 @@ def callers(chk, P0, fams, overlays):
     P = Program(extract(units, hdr=r"LinearAlgebra/src/.*\.h$", inst=r"Rep<|QTransposeChar|TransposeChar", overlays=overlays))
     chk.units += units
     chk.nfunctions += len(P.fns)
+    reps(chk, P)
     fwd = _forwarded_options(fams)
     n = 0
     for f in sorted(P.all_fns(), key=lambda f: f.id):
@@ -229,6 +233,144 @@ def callers(chk, P0, fams, overlays):
                           "%s is a constant of the library's default (double) precision; in a function templatised on the element type it is wrong for float matrices" % e["var"])
     if not bad:
         chk.ok("DEFTOL", "no-fixed-precision-constant-in-element-templates", "", "no element-type template reads SignificantReal / Eps / SqrtEps / TinyReal")
+
+
+HANDLES = {"SimTK::FactorLU": "SimTK::FactorLURepBase", "SimTK::FactorQTZ": "SimTK::FactorQTZRepBase", "SimTK::FactorSVD": "SimTK::FactorSVDRepBase", "SimTK::Eigen": "SimTK::EigenRepBase"}
+# LAPACK drivers that destroy the matrix they are given (LAPACK documentation: "on exit, the contents of A are destroyed" / overwritten by
+# the vectors): wrapper name -> positions (0-based) of the destroyed matrix arguments
+DESTROYS = {"gesdd": [3], "geev": [3], "gelss": [4, 6], "syev": [3], "syevx": [4]}
+
+
+def _member_root(x):
+    """the data member of `this` that an expression like this->m.data / this->m.data[k] lives in"""
+    while isinstance(x, list) and x:
+        if x[0] == "mem":
+            if x[1] == ["this"]:
+                return x[2]
+            x = x[1]
+        elif x[0] in ("opc", "idx", "un", "cast", "conv") and len(x) > 2:
+            x = x[2] if x[0] != "conv" else x[1]
+        else:
+            return None
+    return None
+
+
+def reps(chk, P):
+    chk.rule("OVERRIDE", "handle -> Rep dispatch: every virtual of a ...RepBase class that the handle class calls through its rep pointer is overridden by the element-typed Rep<T> "
+             "(the base versions are 'wrong element type' / placeholder bodies); a Rep<T> member with the same name and parameters but different const-ness hides the "
+             "virtual instead of overriding it, and the handle then always gets the placeholder")
+    chk.rule("SHADOW", "no method of a factorization Rep declares a local variable with the name of one of the class's data members and writes it: the member the method is "
+             "meant to update (a rank, a count) silently keeps its old value")
+    chk.rule("PRESERVE", "a Rep that answers repeated queries from the matrix it stored at construction (FactorSVD, Eigen) never hands that stored matrix to a LAPACK driver that "
+             "destroys its input (gesdd, geev, gelss, syev, syevx): a scratch copy is passed, so that a second query, or a solve after a query, still sees the original")
+    chk.rule("NEEDFLAG", "Eigen's lazy-evaluation flags: needVectors is cleared only where the vectors were computed (under computeVectors), and every getter that hands out vectors "
+             "computes them when needVectors says so -- a values-only query followed by a values-and-vectors query must not return the never-computed vectors")
+    # ---- OVERRIDE
+    n = 0
+    fov = {}
+    for g in P.all_fns():
+        for o in g.d.get("overrides") or []:
+            fov.setdefault(o, set()).add(g.id)
+    for h, base in sorted(HANDLES.items()):
+        seen = set()
+        for f in P.all_fns():
+            if f.cls != h:
+                continue
+            for _, _, e in f.calls():
+                if e.get("virt") and str(e.get("fn", "")).startswith(base + "::") and e.get("fid") not in seen:
+                    seen.add(e["fid"])
+        for fid in sorted(seen):
+            n += 1
+            ov = fov.get(fid, set())
+            def split_id(x):
+                k = x.index("(")
+                return x[:k].split("::")[-1], re.sub(r"\)const$", ")", x[k:])
+            stem, args = split_id(fid)
+            nm = stem + fid[fid.index("("):].replace("SimTK::", "")
+            hid = []
+            if not ov:
+                for g in P.all_fns():
+                    if g.cls in P.subclasses(base) and "(" in g.id and split_id(g.id) == (stem, args) and not g.d.get("overrides") and g.d.get("tmpl") != "pattern":
+                        hid.append(g.id.replace("SimTK::", ""))
+            chk.judge(bool(ov), "OVERRIDE", "%s->%s" % (h.split("::")[-1], nm), "", "%s::%s is called by the handle but no Rep<T> overrides it%s" %
+                      (base.split("::")[-1], nm, ("; %s has the same name and parameters but different const-ness and hides it" % hid[0]) if hid else ""))
+    chk.shape(n >= 20, "OVERRIDE", "handle-called-virtuals>=20", "", "%d virtuals of the RepBase classes are called by the handles" % n)
+    # ---- SHADOW
+    ns = 0
+    reps_ = [c for c in P.classes if re.search(r"::(Factor\w*Rep|EigenRep)$", c)]
+    for c in sorted(reps_):
+        fields = {(f_ if isinstance(f_, str) else f_.get("name")) for cc in [c] + P.bases(c) for f_ in P.classes.get(cc, {}).get("fields", [])}
+        seen_sites = set()
+        for f in sorted(P.methods_of(c), key=lambda f: f.id):
+            for b, i, d in f.events(lambda q: q["k"] == "decl" and q["var"] in fields):
+                if (f.name.split("::")[-1], d["var"]) in seen_sites:
+                    continue
+                seen_sites.add((f.name.split("::")[-1], d["var"]))
+                v = d["var"]
+                written = any(True for _ in f.events(lambda q: (q["k"] == "assign" and q["lhs"] == ["var", v]) or (q["k"] == "call" and q.get("op") in ("++", "--", "+=", "-=", "=") and q["x"][2] == ["var", v])))
+                ns += 1
+                chk.judge(not written, "SHADOW", "%s::%s:%s" % (c.split("::")[-1], f.name.split("::")[-1], v), "%s:%d" % (f.file, d["line"]),
+                          "local `%s` shadows the data member %s::%s and is the one that gets updated; the member never changes" % (v, c.split("::")[-1], v))
+        chk.ok("SHADOW", "%s:scanned" % c.split("::")[-1], "", "%d methods scanned" % len(P.methods_of(c)))
+    # ---- PRESERVE
+    npz = 0
+    for c in sorted(reps_):
+        # the stored input: a member handed to LapackConvert::convertMatrixToLapack as destination in a constructor / factor
+        stored = set()
+        for f in P.methods_of(c):
+            for _, _, e in f.calls():
+                if str(e.get("fn", "")).endswith("convertMatrixToLapack") and call_args(e) and _member_root(call_args(e)[0]):
+                    stored.add(_member_root(call_args(e)[0]).split("::")[-1])
+        queries = [f for f in P.methods_of(c) if f.kind not in ("ctor", "copyctor", "movector", "dtor") and f.name.split("::")[-1] != "factor"]
+        multi = c.split("::")[-1] in ("FactorSVDRep", "EigenRep")
+        if not multi or not stored:
+            continue
+        seen_sites = set()
+        for f in sorted(queries, key=lambda f: f.id):
+            for b, i, e in f.calls():
+                nm = str(e.get("fn", "")).split("::")[-1]
+                if nm not in DESTROYS or "LapackInterface" not in e.get("fn", ""):
+                    continue
+                a = call_args(e)
+                for pos in DESTROYS[nm]:
+                    if pos >= len(a) or (f.file, e["line"], pos) in seen_sites:
+                        continue
+                    seen_sites.add((f.file, e["line"], pos))
+                    npz += 1
+                    fld = _member_root(a[pos])
+                    fld = fld.split("::")[-1] if fld else None
+                    chk.judge(fld not in stored, "PRESERVE", "%s::%s:%s(arg%d)" % (c.split("::")[-1], f.name.split("::")[-1], nm, pos), "%s:%d" % (f.file, e["line"]),
+                              "the stored matrix %s is handed to %s, which destroys it: later queries on the same object work on garbage" % (fld, nm))
+    chk.shape(npz >= 3, "PRESERVE", "destroying-driver-call-sites>=3", "", "%d call sites of destroying drivers in FactorSVDRep / EigenRep" % npz)
+    # ---- NEEDFLAG
+    ER = "SimTK::EigenRep"
+    cvs = sorted({g.file + ":" + str(g.line): g for g in P.methods_of(ER) if g.name.endswith("::computeValues")}.values(), key=lambda g: g.id)[:1]
+    if chk.shape(bool(cvs), "NEEDFLAG", "EigenRep::computeValues:found", "", ""):
+        f = cvs[0]
+        par = f.d["params"][0][0]
+        known = known_edges(f, lambda c_: c_ == ["var", par], lambda c_: False)
+        ws = [(b, e) for b, _, e in f.events(lambda q: q["k"] == "assign" and str(field_of(q["lhs"])).endswith("::needVectors") and q.get("rhs") == ["lit", "false"])]
+        chk.shape(bool(ws), "NEEDFLAG", "computeValues:clears-needVectors", f.loc, "%d writes `needVectors = false`" % len(ws))
+        for b, e in ws:
+            chk.judge(bool(known) and only_via(f, b, known), "NEEDFLAG", "computeValues:needVectors-cleared-only-when-vectors-were-computed", "%s:%d" % (f.file, e["line"]),
+                      "needVectors = false is executed also when %s is false (values-only computation)" % par)
+    getters, seen_sites = 0, set()
+    for f in sorted(P.methods_of(ER), key=lambda f: f.id):
+        cps = [(b, i, e) for b, i, e in f.calls() if str(e.get("fn", "")).endswith("::copyVectors")]
+        if not cps or (f.file, f.line) in seen_sites or f.name.endswith("::copyVectors"):
+            continue
+        seen_sites.add((f.file, f.line))
+        getters += 1
+        # the vectors are handed out without having been computed in this call only where needVectors is known to be false
+        isnv = lambda c_: isinstance(c_, list) and c_[:1] == ["mem"] and str(c_[2]).endswith("::needVectors")
+        nv_false = known_edges(f, lambda c_: False, isnv)
+        is_comp = lambda q: q["k"] == "call" and str(q.get("fn", "")).endswith("::computeValues") and bool(call_args(q)) and call_args(q)[0] == ["lit", "true"]
+        sig = re.sub(r"typename CNT<T>::TReal|EigenRep<[^:]*>::RType|RType", "R", "(" + ",".join(p_[1] for p_ in f.d["params"]) + ")").replace("SimTK::", "").replace("std::", "")
+        for b, i, e in cps[:1]:
+            p_ = f.path_exists(None, lambda q, e=e: q is e, is_comp, avoid_edges=nv_false, lift=0)
+            chk.judge(p_ is None, "NEEDFLAG", "%s%s:computes-vectors-when-needVectors" % (f.name.split("::")[-1], sig), f.loc,
+                      "eigenvectors are handed out without computeValues(true) on a path where needVectors may still be true: after a values-only query the vectors were never computed", p_)
+    chk.shape(getters >= 4, "NEEDFLAG", "vector-getters>=4", "", "%d getters call copyVectors" % getters)
 
 
 def clone(chk, fams):
@@ -318,6 +460,22 @@ def workspace(chk, fams):
 _L = "SimTKmath/LinearAlgebra/src/LapackInterface.cpp"
 _Q = "SimTKmath/LinearAlgebra/src/FactorQTZ.cpp"
 MUTATIONS = [
+    dict(name="typed getRank hides the base virtual (pre-fix code)", arm=True, file="SimTKmath/LinearAlgebra/src/FactorSVDRep.h",
+         old="    virtual int getRank() {\n       checkIfFactored( \"getRank\" );", new="    virtual int getRank() const {\n       checkIfFactored( \"getRank\" );", also=[("    int getRank() override;", "    int getRank();")], expect="OVERRIDE:FactorSVD->getRank"),
+    dict(name="rank counted in a loop-init local that shadows the member (pre-fix code)", arm=True, file="SimTKmath/LinearAlgebra/src/FactorSVD.cpp",
+         old="    rank = 0;\n    for(int i=0;i<mn;i++) {", new="    for(int i=0, rank=0;i<mn;i++) {", expect="SHADOW:FactorSVDRep::computeSVD:rank"),
+    dict(name="seeded (sub-agent): gesdd works directly on the stored matrix", arm=True, file="SimTKmath/LinearAlgebra/src/FactorSVD.cpp",
+         old="    TypedWorkSpace<T> tempMatrix = inputMatrix;\n    LapackInterface::gesdd<T>(jobz, nRow,nCol,tempMatrix.data, nRow, values,", new="    LapackInterface::gesdd<T>(jobz, nRow,nCol,inputMatrix.data, nRow, values,",
+         expect="PRESERVE:FactorSVDRep::computeSVD:gesdd"),
+    dict(name="geev destroys the stored matrix (pre-fix code)", file="SimTKmath/LinearAlgebra/src/Eigen.cpp",
+         old="                              n, tempMatrix.data, n, complexEigenValues.data,", new="                              n, inputMatrix.data, n, complexEigenValues.data,", expect="PRESERVE:EigenRep::computeValues:geev"),
+    dict(name="needVectors cleared by a values-only computation (pre-fix code)", file="SimTKmath/LinearAlgebra/src/Eigen.cpp",
+         old="    if( computeVectors ) needVectors = false;", new="    needVectors = false;", expect="NEEDFLAG:computeValues:needVectors-cleared-only-when-vectors-were-computed"),
+    dict(name="a vector getter recomputes only when the values are missing (pre-fix code)", file="SimTKmath/LinearAlgebra/src/Eigen.cpp",
+         old="    range = AllValues;\n\n    if( needValues || needVectors ) computeValues( true );\n    copyValues( values );\n    copyVectors( vectors );\n\n    return;\n}\n// only for symmetric real matrix",
+         new="    range = AllValues;\n\n    if( needValues ) computeValues( true );\n    copyValues( values );\n    copyVectors( vectors );\n\n    return;\n}\n// only for symmetric real matrix",
+         expect="NEEDFLAG:getAllEigenValuesAndVectors(Vector_<complex<R>> &,Matrix_<complex<R>> &)"),
+
     dict(name="complex QTZ solve asks the unitary routines for 'T' (pre-fix code)", arm=True, file=_Q,
          old="    const char transQ = QTransposeChar<T>::get(); // 'T' if real, 'C' if complex", new="    const char transQ = 'T';", expect="OPTCHAR:FactorQTZRep<std::complex<double>>::doSolve:ormqr<z>#1"),
     dict(name="seeded (sub-agent): factor(m) takes its default tolerance from the double-precision constant", file=_Q,
